@@ -175,6 +175,59 @@ func runC11(c *Ctx) {
 		p.KeepFrames = PickS(r, c11Keeps)
 		fetch("fetch-rand", p)
 	}
+	// ---- histories: several frame-dropping operations on the SAME *Profile object, directly and
+	// through the driver (fetchProfiles, then generateRawReport with prune_from as the command line
+	// path does).  Whatever an operation leaves behind on the object must not influence the next one.
+	c.Extra["history_steps"] = "prune d k | prunefrom re | removeun | fetch (driver fetchProfiles) | report re (driver generateRawReport -prune_from=re)"
+	c11History(c, "history-root-match", c11WitnessRootMatch(), []c11Step{{kind: "removeun"}, {kind: "prunefrom", a: "nomatch"}})
+	c11History(c, "history-root-match", c11WitnessRootMatch(), []c11Step{{kind: "fetch"}, {kind: "report", a: "f1"}})
+	c11History(c, "history-root-match", c11WitnessRootMatch(), []c11Step{{kind: "prunefrom", a: "f2"}, {kind: "prune", a: "rt"}, {kind: "prunefrom", a: "f1"}})
+	valid := func() string {
+		for {
+			rx := PickS(r, c11Drops)
+			if _, err := regexp.Compile(rx); err == nil {
+				return rx
+			}
+		}
+	}
+	for i := 0; i < c.Budget(500, 8000); i++ {
+		var p *profile.Profile
+		if r.P(1, 3) {
+			p = c06GenStacks(r, knFM)
+		} else {
+			p = c06GenStacks(r, knF)
+		}
+		for _, m := range p.Mapping {
+			m.HasFunctions, m.HasFilenames = r.P(2, 3), r.Bool()
+		}
+		if !r.P(1, 10) {
+			p.DropFrames = PickS(r, c11Drops)
+		}
+		p.KeepFrames = PickS(r, c11Keeps)
+		var steps []c11Step
+		driverPath := r.P(1, 3)
+		for n := 2 + r.Intn(2); n > 0; n-- {
+			switch k := r.Intn(5); {
+			case driverPath && len(steps) == 0:
+				steps = append(steps, c11Step{kind: "fetch"})
+			case driverPath:
+				steps = append(steps, c11Step{kind: "report", a: valid()})
+			case k == 0:
+				st := c11Step{kind: "prune", a: valid()}
+				if ks := PickS(r, c11Keeps); ks != "" {
+					if _, err := regexp.Compile(ks); err == nil {
+						st.b = &ks
+					}
+				}
+				steps = append(steps, st)
+			case k == 1:
+				steps = append(steps, c11Step{kind: "removeun"})
+			default:
+				steps = append(steps, c11Step{kind: "prunefrom", a: valid()})
+			}
+		}
+		c11History(c, "history-rand", p, steps)
+	}
 }
 
 // c11FreeSamples renders the samples of p without ids: values, labels and, leaf first, one
@@ -229,5 +282,85 @@ func c11Witness15() *profile.Profile {
 	l3 := &profile.Location{ID: 3, Address: 3, Line: []profile.Line{{Function: p.Function[0], Line: 5}, {Function: p.Function[1], Line: 6}}}
 	p.Location = append(p.Location, l3)
 	p.Sample = []*profile.Sample{{Location: []*profile.Location{p.Location[0], l3}, Value: []int64{1}}}
+	return p
+}
+
+// c11Step is one operation of a history: prune a [b] | prunefrom a | removeun | fetch | report a.
+type c11Step struct {
+	kind string
+	a    string
+	b    *string
+}
+
+// c11History applies the steps one after the other to the same profile object and records the
+// id-free frame samples it ends with.
+func c11History(c *Ctx, gen string, p *profile.Profile, steps []c11Step) {
+	rxs := []string{"^(" + p.DropFrames + ")$", "^(" + p.KeepFrames + ")$"}
+	var st []Term
+	tags := []string{"op:history"}
+	kinds := ""
+	for _, s := range steps {
+		kinds += map[string]string{"prune": "P", "prunefrom": "F", "removeun": "R", "fetch": "fetch", "report": "report"}[s.kind] + ">"
+		switch s.kind {
+		case "prune":
+			rxs = append(rxs, s.a)
+			if s.b != nil {
+				rxs = append(rxs, *s.b)
+			}
+			st = append(st, L(S("prune"), S(s.a), c06OptS(s.b)))
+		case "prunefrom", "report":
+			rxs = append(rxs, s.a)
+			st = append(st, L(S(s.kind), S(s.a)))
+		default:
+			st = append(st, L(S(s.kind)))
+		}
+	}
+	tags = append(tags, "history:"+kinds)
+	in := L(S("history"), DumpProfile(p), L(st...), c06MatchTable(c11Universe(p), rxs))
+	before := Render(c11FreeSamples(p))
+	obs := c06Guard(func() Term {
+		for _, s := range steps {
+			switch s.kind {
+			case "prune":
+				var k *regexp.Regexp
+				if s.b != nil {
+					k = regexp.MustCompile(*s.b)
+				}
+				p.Prune(regexp.MustCompile(s.a), k)
+			case "prunefrom":
+				p.PruneFrom(regexp.MustCompile(s.a))
+			case "removeun":
+				p.RemoveUninteresting() // error = nothing done
+			case "fetch":
+				q, err := driver.VerifC11Fetch(p)
+				if err != nil {
+					return L(S("err"), S("fetch: "+err.Error()))
+				}
+				p = q
+			case "report":
+				if err := driver.VerifC06RawReport(p, []string{"top"}, map[string]string{"prune_from": s.a}, false, &c06UI{}); err != nil {
+					return L(S("err"), S("report: "+err.Error()))
+				}
+			}
+		}
+		return L(S("ok"), c11FreeSamples(p))
+	})
+	c.Case(gen, in, obs, before != Render(obs), tags...)
+}
+
+// leaf f1 <- f2 <- rt root, and f2 <- rt, with drop_frames "rt": the matching frame is the root, so
+// it survives drop_frames; a later prune_from must still see a profile without any marks
+func c11WitnessRootMatch() *profile.Profile {
+	p := &profile.Profile{SampleType: []*profile.ValueType{{Type: "samples", Unit: "count"}}}
+	p.Mapping = []*profile.Mapping{{ID: 1, Start: 0x1000, Limit: 0x2000, File: "bin", HasFunctions: true}}
+	for i, n := range []string{"f1", "f2", "rt"} {
+		p.Function = append(p.Function, &profile.Function{ID: uint64(i + 1), Name: n, SystemName: n, Filename: "a.c"})
+		p.Location = append(p.Location, &profile.Location{ID: uint64(i + 1), Mapping: p.Mapping[0], Address: 0x1000 + uint64(i),
+			Line: []profile.Line{{Function: p.Function[i], Line: int64(i + 1)}}})
+	}
+	p.Sample = []*profile.Sample{
+		{Location: []*profile.Location{p.Location[0], p.Location[1], p.Location[2]}, Value: []int64{1}},
+		{Location: []*profile.Location{p.Location[1], p.Location[2]}, Value: []int64{2}}}
+	p.DropFrames = "rt"
 	return p
 }
